@@ -292,7 +292,9 @@ class PoolStream(FM.FormulaStream):
 
 def streams():
     from harness import c13
-    return [StrStream(), HoStream(), SignedStream(), FM.FloatBoundaryStream(), PoolStream(), c13.Ho3Stream()]
+    raw = c13.RawStream()
+    raw.n_quick, raw.n_thorough = 200, 3000
+    return [StrStream(), HoStream(), SignedStream(), FM.FloatBoundaryStream(), PoolStream(), c13.Ho3Stream(), raw]
 
 
 ASSUMPTIONS = [
